@@ -136,5 +136,16 @@ func Generate(r *sim.Rng, prop, tier string, idx int) *sim.Case {
 			c.Faults = append(c.Faults, sim.Fault{Seam: "buffer", Kind: "io_error", Ord: int64(1 + r.Intn(40))})
 		}
 	}
+	if c.Mode == "rand" && len(c.Tasks) == 1 && c.Knobs["disk"] == 0 && r.Chance(1, 3) {
+		// the storage under the allocator moves its memory (the in-memory buffer of the library
+		// reallocates on every Grow, a mapped file is remapped): slices handed out before are stale,
+		// the allocator must go through Buffer() again
+		ops := c.Tasks[0].Ops
+		for k := 0; k < 1+r.Intn(2) && len(ops) > 1; k++ {
+			at := 1 + r.Intn(len(ops)-1)
+			ops = append(ops[:at], append([]sim.Op{{K: "realloc"}}, ops[at:]...)...)
+		}
+		c.Tasks[0].Ops = ops
+	}
 	return c
 }
